@@ -770,6 +770,11 @@ def symbolic_filter(I, seq, cond, kind="list"):
         ci = tobool(I.truth(cond(seq.elem(SV(i)))))
     finally:
         I.spec_depth -= 1
+    # the condition does not depend on the element: the filter keeps everything / nothing (no Skolem functions needed)
+    if z3.is_true(ci):
+        return SSeq(seq.length, seq.elem, kind, tag)
+    if z3.is_false(ci):
+        return SSeq(0, seq.elem, kind, tag)
     eng.assume(z3.And(zm >= 0, zm <= n))
     eng.assume(z3.ForAll([j], z3.Implies(z3.And(j >= 0, j < zm), z3.And(f(j) >= 0, f(j) < n, cj, g(f(j)) == j))))
     eng.assume(z3.ForAll([i], z3.Implies(z3.And(i >= 0, i < n, ci), z3.And(g(i) >= 0, g(i) < zm, f(g(i)) == i))))
